@@ -1062,7 +1062,7 @@ mod n {
     fn n_c16_purge() {
         drive(
             "C16.purge",
-            "purge_unused(&mut Model): 3 spaces, 2 walls (own space {s0,s1}, adjacent {none,s1,s2}, construction {c0,c1}), 1 window (construction {x0,x1}; x1 glass {g0,g1}), 4 bridges (lengths {0,2} / -1 / 0.001 / -0.0), space kind {conditioned, unconditioned, uninhabited} x loads {none,l0,l1} x thermostat {none,t0}, load schedules over 3 yearly, thermostat schedule {none,y1,y2}, yearly->weekly->daily chains with sharing; every collection listed as built / reversed / rotated by one",
+            "purge_unused(&mut Model): 3 spaces, 2 walls (own space {s0,s1}, adjacent {none,s1,s2}, construction {c0,c1}), 1 window (construction {x0,x1}; x1 glass {g0,g1}), 4 bridges (lengths {0,2} / -1 / 0.001 / -0.0), space kind {conditioned, unconditioned, uninhabited} x loads {none,l0,l1} x thermostat {none,t0}, load schedules over 3 yearly, thermostat schedule {none,y1,y2}, yearly->weekly->daily chains with sharing and with references of length 0; every collection listed as built / reversed / rotated by one",
             |c| {
                 let mut m = empty_model();
                 for i in 0..3u128 {
@@ -1115,7 +1115,8 @@ mod n {
                 m.schedules.year.push(sched(0x31, &[(0x41, 100), (0x42, 265)]));
                 m.schedules.year.push(sched(0x32, &[(0x42, 365)]));
                 let k1d = c.of(&[0x50u128, 0x51]);
-                m.schedules.week.push(schedw(0x40, &[(0x50, 7)]));
+                // a run of length 0 is still a reference: the daily schedule it names stays reachable
+                m.schedules.week.push(schedw(0x40, &[(0x50, 7), (0x52, 0)]));
                 m.schedules.week.push(schedw(0x41, &[(k1d, 5), (0x51, 2)]));
                 m.schedules.week.push(schedw(0x42, &[(0x52, 7)]));
                 m.schedules.day.push(schedd(0x50, 1.0));
@@ -1615,7 +1616,7 @@ mod n {
     // while a building is entered element by element (empty model, a space, its floor, wall after wall, the windows)
     #[test]
     fn n_c14_closed_family() {
-        drive("C14.closed_family", "closed models with positive sizes: the seed with {both, one, no} windows x shade {yes,no} x bridges {yes,no} x loads / thermostat / schedules {yes,no} x second space {yes,no} x wall override {yes,no}; and the 11 models an editor passes through from the empty model to the seed's first space with its 5 walls and 2 windows: every reported number finite, the result serialises to JSON that loads back", |c| {
+        drive("C14.closed_family", "closed models with positive sizes: the seed with {both, one, no} windows x shade {yes,no} x bridges {yes,no} x loads / thermostat / schedules {yes,no} x second space {yes,no} x wall override {yes,no}; and the 11 models an editor passes through from the empty model to the seed's first space with its 5 walls and 2 windows; each with every element placed / the windows / the walls without position: every reported number finite, the result serialises to JSON that loads back", |c| {
             let mut m = seed_model();
             let editor = c.flag();
             if editor {
@@ -1680,8 +1681,21 @@ mod n {
                 }
                 c.note(format!("seed with {} windows, shade {}, bridges {}, loads {}, second space {}, override {}", 2 - windows, shade, bridges, loads, second, over));
             }
+            // windows / walls as the editor creates them, before a position is given (still a closed model with positive sizes)
+            let unplaced = c.pick(3);
+            if unplaced == 1 {
+                for w in m.windows.iter_mut() {
+                    w.geometry.position = None;
+                }
+            } else if unplaced == 2 {
+                for w in m.walls.iter_mut() {
+                    w.geometry.position = None;
+                }
+            }
+            c.note(["every element placed", "windows without position", "walls without position"][unplaced].to_string());
             c.check("C14.seed.closed", check(&m).is_empty(), || format!("the model is not closed: {:?}", check(&m).iter().map(|w| w.msg.clone()).collect::<Vec<_>>()));
             let ind = m.energy_indicators();
+            c.check("C14.closed.finite", ind.props.windows.values().all(|w| w.f_shobst.map(|f| f.is_finite()).unwrap_or(true)), || format!("a window's shading factor is not finite: {:?}", ind.props.windows.values().map(|w| w.f_shobst).collect::<Vec<_>>()));
             let json = match ind.as_json() {
                 Ok(j) => j,
                 Err(e) => {
